@@ -5,6 +5,9 @@ package checks
 
 import (
 	"fmt"
+	"strings"
+
+	"verif/harness/ref"
 	"math/rand/v2"
 	"sort"
 
@@ -132,3 +135,88 @@ func evalWitnesses(c *core.Ctx, ck *Check) {
 
 // C19Child is set by c19.go.
 var C19Child func(args []string) int
+
+
+// inheritedNonTransitive reports whether the implementation's order on strs is non-transitive ONLY because the
+// upstream reference algorithm itself is: the reference (Maven ComparableVersion 3.8.7, libalpm vercmp; both are
+// documented to be faithful targets by C12 resp. by the repository's vercmp-verified tests) gives the same sign
+// as the implementation for every pair of strs, and the reference matrix is itself not a total preorder.
+// A violation with that cause is a known finding ("inherited from the reference"); any difference between the
+// implementation and the reference on the list makes this false, so other cycles are still reported.
+func inheritedNonTransitive(e *eco.Eco, strs []string) bool {
+	var refCmp func(a, b string) int
+	switch e.Name {
+	case "maven":
+		// go-univers keeps (test-pinned) the alias meaning of a bare single-letter a / b / m; the reference gives
+		// that meaning only when a digit follows, so bare letters are spelled out before asking the reference
+		refCmp = func(a, b string) int {
+			c, _ := ref.MavenCmp(mavenExpandBareAliases(strings.TrimSpace(a)), mavenExpandBareAliases(strings.TrimSpace(b)))
+			return c
+		}
+	case "alpm":
+		refCmp = func(a, b string) int { return ref.AlpmCmp(strings.TrimSpace(a), strings.TrimSpace(b)) }
+	default:
+		return false
+	}
+	n := len(strs)
+	vs := make([]eco.Ver, n)
+	for i, s := range strs {
+		v, err, pn := e.SafeNewVersion(s)
+		if pn != nil || err != nil || v == nil {
+			return false
+		}
+		vs[i] = v
+	}
+	m := make([]int, n*n)
+	for i := 0; i < n; i++ {
+		for j := 0; j < n; j++ {
+			c, pn := eco.SafeCompare(vs[i], vs[j])
+			if pn != nil || sgn(c) != refCmp(strs[i], strs[j]) {
+				return false
+			}
+			m[i*n+j] = sgn(c)
+		}
+	}
+	for i := 0; i < n; i++ {
+		for j := 0; j < n; j++ {
+			for k := 0; k < n; k++ {
+				if m[i*n+j] <= 0 && m[j*n+k] <= 0 && (m[i*n+k] > 0 || ((m[i*n+j] < 0 || m[j*n+k] < 0) && m[i*n+k] >= 0)) {
+					return true
+				}
+			}
+		}
+	}
+	return false
+}
+
+
+// mavenExpandBareAliases rewrites letter runs that are exactly a, b or m (any case) to alpha, beta, milestone.
+func mavenExpandBareAliases(s string) string {
+	var out strings.Builder
+	isL := func(c byte) bool { return (c >= 'a' && c <= 'z') || (c >= 'A' && c <= 'Z') }
+	for i := 0; i < len(s); {
+		if !isL(s[i]) {
+			out.WriteByte(s[i])
+			i++
+			continue
+		}
+		j := i
+		for j < len(s) && isL(s[j]) {
+			j++
+		}
+		run := s[i:j]
+		if len(run) == 1 {
+			switch run {
+			case "a", "A":
+				run = "alpha"
+			case "b", "B":
+				run = "beta"
+			case "m", "M":
+				run = "milestone"
+			}
+		}
+		out.WriteString(run)
+		i = j
+	}
+	return out.String()
+}
